@@ -22,7 +22,7 @@ LEVEL = "model_checking"
 RULE = (
     "(a) all tables of CT(2,2,2) and CT(3,2,1) (thorough: + CT(2,3,1), CT(2,2,3), G1(5,2) x 81 with ASSD matching) x UNMATCHED x {one-to-one threshold matcher: every IoU "
     "threshold class without decision + the most lenient class x decision in {none, Dice .5, ASSD .5, ASSD 0, IoU at every class}; many-to-one and merge matcher at the most lenient and the "
-    "median class x decision in {none, Dice .5, ASSD .5}} and x MATCHED x the same decisions (also with an unused matcher of the decision's metric and an unused approximator configured); SEMANTIC on G2(2,2,2) x 27 refs x {default, cc3d} x 4 threshold classes x 3 decisions; "
+    "median class x decision in {none, Dice .5, ASSD .5}} and x MATCHED x the same decisions (also with an unused matcher of the decision's metric and an unused approximator configured; instance-metric lists consisting of the decision metric only / another metric + the decision metric / [IoU], [RVD], [ASSD, Dice] without decision); SEMANTIC on G2(2,2,2) x 27 refs x {default, cc3d} x 4 threshold classes x 3 decisions; "
     "(b) all PanopticaResult(num_ref, num_pred in 0..4, tp <= min, lists of length tp over {0,.25,.5,1} / {0,.5,2}) x 5 empty-list-std values. "
     "non-trivial = at least one instance fails the decision threshold, or a many-to-one/merge assignment merged a group, or a direct result with >= 2 distinct values; distinct by (arrays, configuration)"
 )
@@ -177,12 +177,21 @@ def _configs(kind, pred, ref, acc):
                 out.append({"itype": "UNMATCHED", "matcher": m, "backend": "none", "decision": dec})
     mm = e2e.Model(pred, ref, "MATCHED")
     asg = sorted(mm.matched_assignment())
+    iou_first = e2e.guarded_thresholds(mm, "IOU", asg, None, shape)[:2]
     for dec in [None, ["DSC", 0.5], ["ASSD", 0.5], ["ASSD", 0.0], ["DSC", 1.0]] + [["IOU", t] for t in e2e.guarded_thresholds(mm, "IOU", asg, acc, shape)]:
         out.append({"itype": "MATCHED", "matcher": None, "backend": "none", "decision": dec})
         # matched input with a (then unused) matcher and approximator configured, as users who pass every component do
         if dec is not None:
             for um in (["thr", dec[0], 0.5, False], ["merge", dec[0], dec[1]]):
                 out.append({"itype": "MATCHED", "matcher": um, "backend": "default", "decision": dec})
+        # short instance-metric lists: only the decision metric, and the decision metric last of two
+        if dec is not None and (dec[0] != "IOU" or dec[1] in iou_first):
+            out.append({"itype": "MATCHED", "matcher": None, "backend": "none", "decision": dec, "imetrics": [dec[0]]})
+            out.append({"itype": "MATCHED", "matcher": None, "backend": "none", "decision": dec, "imetrics": ["RVD" if dec[0] != "RVD" else "IOU", dec[0]]})
+            out.append({"itype": "UNMATCHED", "matcher": ["thr", mmetric, thrs[0], False], "backend": "none", "decision": dec, "imetrics": [dec[0]]})
+    for im in (["IOU"], ["RVD"], ["ASSD", "DSC"]):
+        out.append({"itype": "MATCHED", "matcher": None, "backend": "none", "decision": None, "imetrics": im})
+        out.append({"itype": "UNMATCHED", "matcher": ["thr", mmetric, thrs[len(thrs) // 2], False], "backend": "none", "decision": None, "imetrics": im})
     return out
 
 
@@ -191,9 +200,10 @@ def _pipeline(acc, case, pred, ref, cfg):
     tag = f"{cfg}"
     acc.step()
     try:
-        ev = make_evaluator(cfg["itype"], matcher=cfg["matcher"], backend=cfg["backend"], decision=cfg["decision"])
+        im = tuple(cfg.get("imetrics") or ALLM)
+        ev = make_evaluator(cfg["itype"], matcher=cfg["matcher"], backend=cfg["backend"], decision=cfg["decision"], instance_metrics=im)
         res, steps = ev.evaluate(pred.copy(), ref.copy(), verbose=False)["ungrouped"]
-        obs = observe(res, with_global=False)
+        obs = observe(res, metrics=im, with_global=False)
     except Exception as e:
         acc.violation(f"C02:raised:{type(e).__name__}:{cfg['itype']}", c2, f"{tag}: evaluate raised {e!r}")
         return
